@@ -309,6 +309,29 @@ func (C06) Gen(r *core.Rng, tier string, emit func(string)) {
 			emit(fmt.Sprintf("convert %d png %s M %s G ", d, fmtRows(rows), randMbMetadata(r, "png")))
 		}
 	}
+	// setZoomCenterDefaults alone (hook): zoom range from the first tile and from the END of the last run, the
+	// center filled in only when all three center fields are zero
+	nZD := 300
+	if tier == "thorough" {
+		nZD = 20000
+	}
+	for i := 0; i < nZD; i++ {
+		es := randTileSet(r, 1+r.Intn(6), maxTileID, true, 5).entries
+		if len(es) == 0 {
+			continue
+		}
+		cz, clon, clat := 0, int32(0), int32(0)
+		switch r.Intn(4) {
+		case 0:
+			cz, clon, clat = r.Intn(12), int32(r.U64()), int32(r.U64())
+		case 1:
+			cz = r.Intn(3) // zoom 0 with a real position is a declared center
+			clon = int32(r.U64())
+		case 2:
+			clat = int32(r.U64())
+		}
+		emit(fmt.Sprintf("zoomdef %d %d %d %d %d %d %d E %s", cz, clon, clat, int32(r.U64()), int32(r.U64()), int32(r.U64()), int32(r.U64()), fmtEntries(es)))
+	}
 	formats := []string{"pbf", "png", "jpg", "webp", "avif"}
 	// tiles around buffer-size boundaries (4 KiB, 64 KiB, 1 MiB, several MiB): one big blob among small ones
 	bigSizes := []int{4095, 4096, 65535, 65536, 65537, 1<<20 - 1, 1 << 20, 1<<20 + 1, 1<<20 + 4097, 3 << 20}
@@ -538,6 +561,21 @@ func (C06) RunGo(line string) string {
 	cliMode, t := splitCLI(strings.Fields(line))
 	_ = cliMode
 	switch t[0] {
+	case "zoomdef":
+		if len(t) < 10 {
+			return "bad-case"
+		}
+		var v [7]int64
+		for k := 0; k < 7; k++ {
+			v[k], _ = strconv.ParseInt(t[1+k], 10, 64)
+		}
+		es, _, ok := parseEntries(t[9:])
+		if !ok || len(es) == 0 {
+			return "no-entries"
+		}
+		h := pmtiles.HeaderV3{CenterZoom: uint8(v[0]), CenterLonE7: int32(v[1]), CenterLatE7: int32(v[2]), MinLonE7: int32(v[3]), MinLatE7: int32(v[4]), MaxLonE7: int32(v[5]), MaxLatE7: int32(v[6])}
+		pmtiles.VerifSetZoomCenterDefaults(&h, es)
+		return fmt.Sprintf("%d %d %d %d %d", h.MinZoom, h.MaxZoom, h.CenterZoom, h.CenterLonE7, h.CenterLatE7)
 	case "resolve":
 		body, _ := splitTok(t[3:], "G")
 		as, ok := parseAdds(body)
@@ -582,6 +620,9 @@ func (C06) Branch(line, goOut string) string {
 	if t[0] == "convert" {
 		return "convert " + t[2] + " dedup=" + t[1]
 	}
+	if t[0] == "zoomdef" {
+		return "zoomdef"
+	}
 	return "resolve d=" + t[1] + " c=" + t[2]
 }
 
@@ -612,6 +653,28 @@ func (C06) Oracle(line, goOut string) string {
 		return goOut
 	}
 	switch t[0] {
+	case "zoomdef":
+		// independent: zoom of the lowest and of the highest ADDRESSED tile, by searching the zoom blocks
+		es, _, ok := parseEntries(t[9:])
+		f := strings.Fields(goOut)
+		if ok && len(es) > 0 && len(f) == 5 {
+			zoomOf := func(id uint64) int {
+				z := 0
+				for z < 31 && id >= base(uint(z)+1) {
+					z++
+				}
+				return z
+			}
+			last := es[len(es)-1]
+			lastID := last.TileID
+			if last.RunLength > 1 {
+				lastID += uint64(last.RunLength) - 1
+			}
+			if want := fmt.Sprintf("%d %d", zoomOf(es[0].TileID), zoomOf(lastID)); f[0]+" "+f[1] != want {
+				return "zoom range written " + f[0] + ".." + f[1] + ", the addressed tiles span zooms " + want
+			}
+		}
+		return ""
 	case "resolve":
 		body, _ := splitTok(t[3:], "G")
 		as, _ := parseAdds(body)
